@@ -271,6 +271,30 @@ def c15_check(prop, tier, seed, replay):
                 c["budgetms"] = 0
                 if k % 5 == 0:
                     c["p1"] = "greedyrand"
+            # the spline router (its geometry kernel allocates per call; partial size maps give zero-size nodes, whose
+            # routes end on rectangle corners and take the kernel's early exits).  Degenerate corridors can hang (known
+            # findings of C01) and the concurrent driver has no per-call watchdog, so only inputs that return when run
+            # alone are used: a sequential pass with the restartable workers filters them first.
+            sp_in = random_inputs(rng, 160 if tier == "quick" else 900, 3, 9, density=1.3)
+            sp_combos = grid(p1=K.P1S, p2=K.P2S, p4=["sink", "valign", "pack", "bk"], p5=["splines"],
+                             size=["fixed", "all", "some", "fixed+some", "some"], pat=["odd", "het"], ns=[2, 10], ls=[4, 10])
+            sp = [apply(n, e, cb) for (n, e), cb in rotate(sp_in, sp_combos, 1, rng)]
+            pre = engine.run_layout_cases(work, driver, ["C01"], sp, tag="spfilter", budget_ms=1500)
+            badids = {v["case"] for v in pre.violations}
+            sp_ok = [{k: x for k, x in c.items() if k != "case"} for cid, c in pre.cases.items() if cid not in badids]
+            log("[C15] spline cases: %d of %d return when run alone and join the concurrent batches" % (len(sp_ok), len(sp)))
+            # spread them over the batches
+            step = max(1, len(cs) // max(1, len(sp_ok)))
+            mixed = []
+            spi = 0
+            for k, c in enumerate(cs):
+                mixed.append(c)
+                if k % step == 0 and spi < len(sp_ok):
+                    mixed.append(sp_ok[spi])
+                    spi += 1
+            cs = mixed
+            for c in cs:
+                c["budgetms"] = 0
             plan = [(2, 1), (8, 4), (64, 16)] if tier == "quick" else [(2, 1), (2, 16), (8, 1), (8, 4), (16, 16), (64, 4), (64, 16)]
             per = len(cs) // len(plan)
             batches = []
